@@ -56,7 +56,13 @@ pub enum E {
     InList(bool, Box<E>, Vec<E>),
     /// CASE [operand] WHEN .. THEN .. [ELSE ..] END: operand (simple CASE) or none (searched), arms, else
     Case(Option<Box<E>>, Vec<(E, E)>, Option<Box<E>>),
+    /// UPPER / LOWER / LENGTH / LTRIM / RTRIM (the word of the case syntax: upper, lower, length, ltrim, rtrim)
+    StrFn(&'static str, Box<E>),
+    /// `a || b`
+    Concat(Box<E>, Box<E>),
 }
+
+pub const STR_FNS: [&str; 5] = ["upper", "lower", "length", "ltrim", "rtrim"];
 
 #[derive(Clone, Debug)]
 pub enum From {
@@ -223,6 +229,15 @@ pub fn show_expr(e: &E, out: &mut Vec<String>) {
         E::IsNull(neg, a) => {
             out.push(if *neg { "notnull" } else { "isnull" }.into());
             show_expr(a, out)
+        }
+        E::StrFn(f, a) => {
+            out.push(f.to_string());
+            show_expr(a, out)
+        }
+        E::Concat(a, b) => {
+            out.push("cat".into());
+            show_expr(a, out);
+            show_expr(b, out)
         }
         E::Between(neg, a, b, c) => {
             out.push(if *neg { "nbtw" } else { "btw" }.into());
@@ -440,6 +455,15 @@ fn p_expr(t: &mut Toks) -> Option<E> {
             Some(E::Like(w == "nlike", Box::new(a), Box::new(b)))
         }
         "isnull" | "notnull" => Some(E::IsNull(w == "notnull", Box::new(p_expr(t)?))),
+        "upper" | "lower" | "length" | "ltrim" | "rtrim" => {
+            let f = STR_FNS.iter().find(|x| **x == w)?;
+            Some(E::StrFn(f, Box::new(p_expr(t)?)))
+        }
+        "cat" => {
+            let a = p_expr(t)?;
+            let b = p_expr(t)?;
+            Some(E::Concat(Box::new(a), Box::new(b)))
+        }
         "btw" | "nbtw" => {
             let a = p_expr(t)?;
             let b = p_expr(t)?;
@@ -646,7 +670,9 @@ fn level(e: &E) -> u8 {
         E::Neg(..) | E::Pos(..) => 7,
         // a negative literal is written with a leading minus sign: it is a unary expression for the printer
         E::Lit(Val::Int(i)) if *i < 0 => 7,
-        E::Lit(..) | E::Col(..) | E::Case(..) => 8,
+        E::Lit(..) | E::Col(..) | E::Case(..) | E::StrFn(..) => 8,
+        // `||` binds like + and -
+        E::Concat(..) => 5,
     }
 }
 
@@ -683,6 +709,8 @@ pub fn sql_expr(e: &E, min: u8, col: &dyn Fn(usize) -> String) -> String {
             format!("{} {}LIKE {}", sql_expr(a, 5, col), if *neg { "NOT " } else { "" }, sql_expr(b, 5, col))
         }
         E::IsNull(neg, a) => format!("{} IS {}NULL", sql_expr(a, 5, col), if *neg { "NOT " } else { "" }),
+        E::StrFn(f, a) => format!("{}({})", f.to_uppercase(), sql_expr(a, 1, col)),
+        E::Concat(a, b) => format!("{} || {}", sql_expr(a, 5, col), sql_expr(b, 6, col)),
         E::Between(neg, a, lo, hi) => format!(
             "{} {}BETWEEN {} AND {}",
             sql_expr(a, 5, col),
@@ -773,6 +801,8 @@ pub fn expr_ty(e: &E, tys: &[Ty]) -> Option<Ty> {
         E::Lit(_) => None,
         E::Col(i) => Some(tys.get(*i).copied().unwrap_or(Ty::BigInt)),
         E::Neg(a) | E::Pos(a) => expr_ty(a, tys),
+        E::StrFn("length", _) => Some(Ty::Int),
+        E::StrFn(..) | E::Concat(..) => Some(Ty::Text),
         E::Arith(_, a, b) => match (expr_ty(a, tys), expr_ty(b, tys)) {
             (None, None) => None,
             (ta, tb) => Some(wider(ta.unwrap_or(Ty::Bool), tb.unwrap_or(Ty::Bool))),
@@ -1254,7 +1284,8 @@ enum Profile {
     Nulls,
 }
 
-const WORDS: [&str; 12] = ["", "a", "ab", "abc", "b", "ba", "B", "x", "xy", "a%", "a_c", "zz"];
+const WORDS: [&str; 17] =
+    ["", "a", "ab", "abc", "b", "ba", "B", "x", "xy", "a%", "a_c", "zz", " a", "b  ", "  ", " Ab ", "\tq\t "];
 const PATTERNS: [&str; 14] = ["%", "a%", "%b", "%b%", "_", "a_", "_b%", "abc", "", "%%", "a_c", "__", "x%y", "%a%b%"];
 
 impl<'a> Gen<'a> {
@@ -1366,6 +1397,14 @@ impl<'a> Gen<'a> {
         let cols = self.cols_of(tys, &[Ty::Int, Ty::BigInt]);
         let leaf = depth == 0 || self.rng.chance(1, 2) || (self.safe_arith && p == Profile::Boundary);
         if leaf {
+            if !self.cols_of(tys, &[Ty::Text]).is_empty() && self.rng.chance(1, 8) {
+                self.tag("strfn.length");
+                let saved = self.no_case;
+                self.no_case = true;
+                let t = self.text_expr(tys, p);
+                self.no_case = saved;
+                return E::StrFn("length", Box::new(t));
+            }
             if !cols.is_empty() && self.rng.chance(2, 3) {
                 return E::Col(*self.rng.pick(&cols));
             }
@@ -1470,6 +1509,41 @@ impl<'a> Gen<'a> {
         if !self.no_case && self.rng.chance(1, 10) {
             return self.case_expr(tys, p, 't', 0);
         }
+        if self.rng.chance(1, 5) {
+            return self.str_fn_expr(tys, p);
+        }
+        self.text_atom(tys, p)
+    }
+
+    /// UPPER / LOWER / LTRIM / RTRIM of a text (now and then of another such call), or a concatenation
+    fn str_fn_expr(&mut self, tys: &[Ty], p: Profile) -> E {
+        let a = self.text_atom(tys, p);
+        let k = self.rng.below(6) as usize;
+        if k < 4 {
+            let f = STR_FNS[[0, 1, 3, 4][k]];
+            self.tag(&format!("strfn.{}", f));
+            let inner = if self.rng.chance(1, 4) {
+                let g = *self.rng.pick(&["upper", "lower", "ltrim", "rtrim"]);
+                self.tag("strfn.nested");
+                E::StrFn(g, Box::new(a))
+            } else {
+                a
+            };
+            E::StrFn(f, Box::new(inner))
+        } else {
+            self.tag("strfn.concat");
+            let b = self.text_atom(tys, p);
+            let ab = E::Concat(Box::new(a), Box::new(b));
+            if self.rng.chance(1, 4) {
+                let c = self.text_atom(tys, p);
+                if self.rng.chance(1, 2) { E::Concat(Box::new(ab), Box::new(c)) } else { E::Concat(Box::new(c), Box::new(ab)) }
+            } else {
+                ab
+            }
+        }
+    }
+
+    fn text_atom(&mut self, tys: &[Ty], p: Profile) -> E {
         let cols = self.cols_of(tys, &[Ty::Text]);
         if !cols.is_empty() && self.rng.chance(2, 3) {
             E::Col(*self.rng.pick(&cols))
@@ -2084,8 +2158,8 @@ fn expr_cols(e: &E, out: &mut Vec<usize>) {
     match e {
         E::Lit(_) => {}
         E::Col(i) => out.push(*i),
-        E::Not(a) | E::Neg(a) | E::Pos(a) | E::IsNull(_, a) => expr_cols(a, out),
-        E::And(a, b) | E::Or(a, b) | E::Cmp(_, a, b) | E::Arith(_, a, b) | E::Like(_, a, b) => {
+        E::Not(a) | E::Neg(a) | E::Pos(a) | E::IsNull(_, a) | E::StrFn(_, a) => expr_cols(a, out),
+        E::And(a, b) | E::Or(a, b) | E::Cmp(_, a, b) | E::Arith(_, a, b) | E::Like(_, a, b) | E::Concat(a, b) => {
             expr_cols(a, out);
             expr_cols(b, out)
         }
@@ -2129,6 +2203,7 @@ fn top_op(e: &E) -> &'static str {
         E::Between(..) => "between",
         E::InList(..) => "in",
         E::Case(..) => "case",
+        E::StrFn(..) | E::Concat(..) => "strfn",
     }
 }
 
